@@ -28,6 +28,7 @@ class SrcSchema:
         self.structs = {}  # name -> [Field]
         self.all_structs = {}  # name -> [[Field]] (same name in several modules)
         self.qual = {}  # "<file stem>::<Name>" -> [Field]
+        self.unit_structs = set()
         self.derives = {}  # name -> set of derive names
         self.enums = {}  # name -> [(variant, kind, payload types)]
         for d, _, files in os.walk(root):
@@ -96,6 +97,7 @@ class SrcSchema:
             self.structs.setdefault(name, fields)
             self.derives.setdefault(name, ds)
         for m in re.finditer(r"\bstruct\s+(\w+)\s*;", src_nc):
+            self.unit_structs.add(m.group(1))
             self.structs.setdefault(m.group(1), [])
             self.all_structs.setdefault(m.group(1), []).append([])
             self.derives.setdefault(m.group(1), set())
